@@ -12,14 +12,17 @@
 EXTENDS I_CT, Json
 
 CONSTANTS SimLen, Unit
-VARIABLE hist
-gvars == <<vars, hist>>
+VARIABLES hist,
+          vord     \* the order in which the current scan has visited keys: part of the VIEW, so that scans that differ
+                   \* only in their iteration order (and reach the same I_CT state) are separate behaviours
+gvars == <<vars, hist, vord>>
 
 InitRec == [op |-> "init", now |-> now, unit |-> Unit, to |-> to,
             ents |-> [k \in Keys |-> [Tmpl[k] EXCEPT !.ex = ct[k].ex, !.ls = ct[k].ls]]]
-GInit == Init /\ hist = <<InitRec>>
+GInit == Init /\ hist = <<InitRec>> /\ vord = <<>>
 
-Step(a, r) == a /\ hist' = Append(hist, r)
+Step(a, r) == a /\ hist' = Append(hist, r) /\ UNCHANGED vord
+StepV(a, r, v) == a /\ hist' = Append(hist, r) /\ vord' = v
 Sc(x) == [op |-> "sc", x |-> x]
 ScK(x, k) == [op |-> "sc", x |-> x, k |-> k]
 Cl(x) == [op |-> "cl", x |-> x]
@@ -27,8 +30,8 @@ ClK(x, k) == [op |-> "cl", x |-> x, k |-> k]
 Pkt(kind, k) == [op |-> "pkt", kind |-> kind, k |-> k]
 
 GStep ==
-    \/ Step(IterBegin, Sc("iter_begin"))
-    \/ \E k \in Keys : Step(Visit(k), ScK("visit", k))
+    \/ StepV(IterBegin, Sc("iter_begin"), <<>>)
+    \/ \E k \in Keys : StepV(Visit(k), ScK("visit", k), Append(vord, k))
     \/ Step(Get, Sc("get"))
     \/ Step(ApplyLoad, Sc("ccq_load"))
     \/ Step(ApplyUpd, Sc("ccq_update"))
@@ -46,10 +49,10 @@ GStep ==
     \/ Step(Tick, [op |-> "tick", d |-> 1])
 
 GNext ==
-    \/ Len(hist) = SimLen /\ hist' = Append(hist, [op |-> "end"]) /\ UNCHANGED vars
+    \/ Len(hist) = SimLen /\ hist' = Append(hist, [op |-> "end"]) /\ UNCHANGED <<vars, vord>>
     \/ Len(hist) < SimLen /\ GStep
 
-GView == vars
+GView == <<vars, vord>>
 EmitEdge == PrintT("BEH " \o ToJson(hist'))
 EmitAtLen == Len(hist) = SimLen + 1 => PrintT("BEH " \o ToJson(hist))
 =============================================================================
